@@ -110,57 +110,85 @@ theorem runMappedWith_ok (fsd : List MFunc) (env : Env) (f : MFunc) (ms : MSpec)
 
 def slotHas : Slot → Path → Val → Prop
   | .array _ _ cells, .cell _ li, v => cellLookup cells li = some v
+  | .array _ _ cells, .dictArr _, v => v = .tup (cells.map (·.2)) ∧ cells.map (·.1) = List.range cells.length
   | .single w, .single _, v => v = w
   | _, _, _ => False
 
 /-- `W` says exactly what these slots say about the files of their outputs -/
 def SlotsRight (W : Right) (slots : List (String × Slot)) : Prop :=
-  ∀ o s, (o, s) ∈ slots → (∀ li v, W (.cell o li) v ↔ slotHas s (.cell o li) v) ∧ (∀ v, W (.single o) v ↔ slotHas s (.single o) v)
+  ∀ o s, (o, s) ∈ slots → (∀ li v, W (.cell o li) v ↔ slotHas s (.cell o li) v) ∧ (∀ v, W (.single o) v ↔ slotHas s (.single o) v) ∧
+    (∀ v, W (.dictArr o) v ↔ slotHas s (.dictArr o) v)
 
-theorem runMissing_spec (W : Right) (names : List String) (fs0 : FS) (cfg : Cfg) (hl : cfg.legacy = false) (hd : cfg.dict = false)
+/-- a task body: a user call followed by events that are not calls (its element dumps) -/
+def IsBody (b : List Ev) : Prop := ∃ fn li a rest, b = .call fn li a :: rest ∧ callsOf rest = []
+
+/-- `l` is a sequence of task bodies, each of which keeps `J` at every prefix from every state satisfying `J` -/
+def Bodies (J : FS → Prop) (l : List Ev) : Prop := ∃ bs : List (List Ev), bs.flatten = l ∧ ∀ b ∈ bs, IsBody b ∧ Safe J b
+
+theorem Bodies.nil (J : FS → Prop) : Bodies J [] := ⟨[], rfl, fun _ h => by cases h⟩
+
+theorem Bodies.append {J : FS → Prop} {a b : List Ev} (ha : Bodies J a) (hb : Bodies J b) : Bodies J (a ++ b) := by
+  obtain ⟨x, hx, hx'⟩ := ha
+  obtain ⟨y, hy, hy'⟩ := hb
+  refine ⟨x ++ y, by simp [hx, hy], fun c hc => ?_⟩
+  rcases List.mem_append.mp hc with h | h
+  · exact hx' c h
+  · exact hy' c h
+
+theorem Bodies.one {J : FS → Prop} (fn : String) (li : Nat) (a : List (String × Val)) (rest : List Ev) (hc : callsOf rest = [])
+    (hs : Safe J (.call fn li a :: rest)) : Bodies J (.call fn li a :: rest) :=
+  ⟨[.call fn li a :: rest], by simp, fun b hb => by simp at hb; subst hb; exact ⟨⟨fn, li, a, rest, rfl, hc⟩, hs⟩⟩
+
+theorem runMissing_spec (W : Right) (names : List String) (fs0 : FS) (cfg : Cfg) (hl : cfg.legacy = false) (d : Bool)
     (fsd : List MFunc) (env : Env) (f : MFunc) (ms : MSpec) (es : List Nat) (args : Nat → List (String × Val)) :
     ∀ (missing : List Nat) (nc : Nat),
       (∀ li ∈ missing, selectArgs fsd env f ms (shapeToKey es li) = .ok (args li)) →
       (∀ li ∈ missing, ∀ o ∈ f.outputs, W (.cell o li) (outVal f (args li) o)) →
-      Safe (I W names fs0) (runMissing cfg fsd env f ms es missing nc).evs ∧
-      (∀ c ∈ callsOf (runMissing cfg fsd env f ms es missing nc).evs, c.fn = f.name ∧ c.li ∈ missing) ∧
-      ((runMissing cfg fsd env f ms es missing nc).res =
+      Safe (I W names fs0) (runMissing cfg d fsd env f ms es missing nc).evs ∧
+      (∀ c ∈ callsOf (runMissing cfg d fsd env f ms es missing nc).evs, c.fn = f.name ∧ c.li ∈ missing) ∧
+      ((runMissing cfg d fsd env f ms es missing nc).res =
         .ok (missing.map fun li => (li, f.outputs.map fun o => (o, outVal f (args li) o))) ∨
-       (cfg.failAt ≠ none ∧ ∃ fn, (runMissing cfg fsd env f ms es missing nc).res = .error (.raised fn))) := by
+       (cfg.failAt ≠ none ∧ ∃ fn, (runMissing cfg d fsd env f ms es missing nc).res = .error (.raised fn))) ∧
+      Bodies (I W names fs0) (runMissing cfg d fsd env f ms es missing nc).evs := by
   intro missing
   induction missing with
-  | nil => intro nc _ _; exact ⟨Safe.nil _, by simp [runMissing, callsOf], Or.inl rfl⟩
+  | nil => intro nc _ _; exact ⟨Safe.nil _, by simp [runMissing, callsOf], Or.inl rfl, Bodies.nil _⟩
   | cons li rest ih =>
     intro nc hsel hW
     have hs := hsel li (by simp)
-    obtain ⟨ih1, ih2, ih3⟩ := ih (nc + 1) (fun x hx => hsel x (by simp [hx])) (fun x hx => hW x (by simp [hx]))
+    obtain ⟨ih1, ih2, ih3, ih4⟩ := ih (nc + 1) (fun x hx => hsel x (by simp [hx])) (fun x hx => hW x (by simp [hx]))
     simp only [runMissing, hs]
     by_cases hf : cfg.failAt = some nc
     · simp only [hf, ↓reduceIte]
-      refine ⟨safe_call _ _ _ _ _ _, ?_, ?_⟩
+      refine ⟨safe_call _ _ _ _ _ _, ?_, ?_, Bodies.one _ _ _ [] rfl (safe_call _ _ _ _ _ _)⟩
       · intro c hc; simp [callsOf] at hc; subst hc; simp
       · exact Or.inr ⟨by simp, _, rfl⟩
-    · simp only [hf, ↓reduceIte, hd, Bool.false_eq_true, hl]
-      refine ⟨?_, ?_, ?_⟩
-      · have : (Ev.call f.name li (args li) ::
-            ((f.outputs.map fun o => (o, outVal f (args li) o)).flatMap fun ov => writeEvs false (.cell ov.1 li) ov.2) ++
-              (runMissing cfg fsd env f ms es rest (nc + 1)).evs) =
-            [Ev.call f.name li (args li)] ++
-            (((f.outputs.map fun o => (o, outVal f (args li) o)).flatMap fun ov => writeEvs false (.cell ov.1 li) ov.2) ++
-              (runMissing cfg fsd env f ms es rest (nc + 1)).evs) := rfl
+    · simp only [hf, ↓reduceIte, hl]
+      have hwr : Safe (I W names fs0) (if d = true then [] else
+          (f.outputs.map fun o => (o, outVal f (args li) o)).flatMap fun ov => writeEvs false (.cell ov.1 li) ov.2) := by
+        cases d
+        · simp only [Bool.false_eq_true, ↓reduceIte]
+          refine Safe.flatMap _ _ ?_
+          intro ov hov
+          obtain ⟨o, ho, rfl⟩ := List.mem_map.mp hov
+          exact safe_write W names fs0 _ _ rfl (hW li (by simp) o ho) (by intro e; cases e)
+        · exact Safe.nil _
+      have hwc : callsOf (if d = true then [] else
+          (f.outputs.map fun o => (o, outVal f (args li) o)).flatMap fun ov => writeEvs false (.cell ov.1 li) ov.2) = [] := by
+        cases d
+        · simp only [Bool.false_eq_true, ↓reduceIte]; exact callsOf_flatMap_write _ _ _ _
+        · rfl
+      have hshape : ∀ (wr more : List Ev), (Ev.call f.name li (args li) :: wr ++ more) = [Ev.call f.name li (args li)] ++ (wr ++ more) :=
+        fun _ _ => rfl
+      refine ⟨?_, ?_, ?_, ?_⟩
+      rotate_left 3
+      · have : ∀ (wr more : List Ev), (Ev.call f.name li (args li) :: wr ++ more) = (Ev.call f.name li (args li) :: wr) ++ more := fun _ _ => rfl
         rw [this]
-        refine Safe.append (safe_call _ _ _ _ _ _) (Safe.append (Safe.flatMap _ _ ?_) ih1)
-        intro ov hov
-        obtain ⟨o, ho, rfl⟩ := List.mem_map.mp hov
-        exact safe_write W names fs0 _ _ rfl (hW li (by simp) o ho) (by intro e; cases e)
+        exact Bodies.append (Bodies.one _ _ _ _ hwc (Safe.append (a := [Ev.call f.name li (args li)]) (safe_call _ _ _ _ _ _) hwr)) ih4
+      · rw [hshape]
+        exact Safe.append (safe_call _ _ _ _ _ _) (Safe.append hwr ih1)
       · intro c hc
-        have : (Ev.call f.name li (args li) ::
-            ((f.outputs.map fun o => (o, outVal f (args li) o)).flatMap fun ov => writeEvs false (.cell ov.1 li) ov.2) ++
-              (runMissing cfg fsd env f ms es rest (nc + 1)).evs) =
-            [Ev.call f.name li (args li)] ++
-            (((f.outputs.map fun o => (o, outVal f (args li) o)).flatMap fun ov => writeEvs false (.cell ov.1 li) ov.2) ++
-              (runMissing cfg fsd env f ms es rest (nc + 1)).evs) := rfl
-        rw [this, callsOf_append, callsOf_append, callsOf_flatMap_write] at hc
+        rw [hshape, callsOf_append, callsOf_append, hwc] at hc
         simp only [List.nil_append, List.mem_append] at hc
         rcases hc with hc | hc
         · simp [callsOf] at hc; subst hc; simp
@@ -198,16 +226,19 @@ theorem rowVal_partition (f : MFunc) (g : Nat → Val) (o : String) (ho : o ∈ 
     simp only [h1, h2, ↓reduceIte]
     rw [alookup_map_self f.outputs (gg li) o ho]; simp [hg]
 
-theorem stepMapped_spec (W : Right) (names : List String) (fs0 : FS) (cfg : Cfg) (hl : cfg.legacy = false) (hd : cfg.dict = false)
+theorem stepMapped_spec (W : Right) (names : List String) (fs0 : FS) (cfg : Cfg) (hl : cfg.legacy = false) (d : Bool)
     (fsd : List MFunc) (env : Env) (f : MFunc) (ms : MSpec) (shape : List Nat) (mask : List Bool) (r : FuncResult)
     (hlen : shape.length = mask.length) (hpf : runMappedWith opArray fsd env f ms shape mask = .ok r) (hSR : SlotsRight W r.slots)
-    (fs : FS) (hI : I W names fs0 fs) (nc : Nat) :
-    Safe (I W names fs0) (stepMapped cfg fsd env (fileView fs) nc f ms shape mask).subEvs ∧
-    (stepMapped cfg fsd env (fileView fs) nc f ms shape mask).procEvs = [] ∧
-    (∀ c ∈ (stepMapped cfg fsd env (fileView fs) nc f ms shape mask).calls, c.fn = f.name ∧ isMissing (fileView fs) f c.li = true) ∧
-    ((∃ r', (stepMapped cfg fsd env (fileView fs) nc f ms shape mask).res = .ok r' ∧
+    (view : View)
+    (hV : ∀ o ∈ f.outputs, ∀ li, view o li = none ∨ ∃ v, view o li = some (.complete v) ∧ W (.cell o li) v) (nc : Nat) :
+    Safe (I W names fs0) (stepMapped cfg d fsd env view nc f ms shape mask).subEvs ∧
+    (stepMapped cfg d fsd env view nc f ms shape mask).procEvs = [] ∧
+    (∀ c ∈ (stepMapped cfg d fsd env view nc f ms shape mask).calls,
+      c.fn = f.name ∧ c.li < prod (extOf mask shape) ∧ isMissing view f c.li = true) ∧
+    ((∃ r', (stepMapped cfg d fsd env view nc f ms shape mask).res = .ok r' ∧
       r'.outputs = r.outputs ∧ r'.slots = r.slots) ∨
-     (cfg.failAt ≠ none ∧ ∃ fn, (stepMapped cfg fsd env (fileView fs) nc f ms shape mask).res = .error (.raised fn))) := by
+     (cfg.failAt ≠ none ∧ ∃ fn, (stepMapped cfg d fsd env view nc f ms shape mask).res = .error (.raised fn))) ∧
+    Bodies (I W names fs0) (stepMapped cfg d fsd env view nc f ms shape mask).subEvs := by
   obtain ⟨args, hsel, hout, hslots⟩ := runMappedWith_ok fsd env f ms shape mask r hpf
   have hcell : ∀ o ∈ f.outputs, ∀ li v, W (.cell o li) v ↔ cellLookup (cellsOf f (prod (extOf mask shape)) args o) li = some v := by
     intro o ho li v
@@ -222,16 +253,21 @@ theorem stepMapped_spec (W : Right) (names : List String) (fs0 : FS) (cfg : Cfg)
     rw [hcell o ho, cellLookup_cellsOf] at hw
     simp only [hli, ↓reduceIte, Option.some.injEq] at hw
     exact hw.symm
-  have hmem : ∀ li, li ∈ (List.range (prod (extOf mask shape))).filter (isMissing (fileView fs) f) →
-      li < prod (extOf mask shape) ∧ isMissing (fileView fs) f li = true := by
+  have hmem : ∀ li, li ∈ (List.range (prod (extOf mask shape))).filter (isMissing view f) →
+      li < prod (extOf mask shape) ∧ isMissing view f li = true := by
     intro li h; simpa using h
-  obtain ⟨S1, S2, S3⟩ := runMissing_spec W names fs0 cfg hl hd fsd env f ms (extOf mask shape) args
-    ((List.range (prod (extOf mask shape))).filter (isMissing (fileView fs) f)) nc
+  obtain ⟨S1, S2, S3, S4⟩ := runMissing_spec W names fs0 cfg hl d fsd env f ms (extOf mask shape) args
+    ((List.range (prod (extOf mask shape))).filter (isMissing view f)) nc
     (fun li h => hsel li (hmem li h).1) (fun li h o ho => hWw o ho li (hmem li h).1)
-  have hcalls : ∀ c ∈ callsOf (runMissing cfg fsd env f ms (extOf mask shape)
-      ((List.range (prod (extOf mask shape))).filter (isMissing (fileView fs) f)) nc).evs,
-      c.fn = f.name ∧ isMissing (fileView fs) f c.li = true := fun c hc => ⟨(S2 c hc).1, (hmem _ (S2 c hc).2).2⟩
-  refine ⟨?_, ?_, ?_, ?_⟩
+  have hcalls : ∀ c ∈ callsOf (runMissing cfg d fsd env f ms (extOf mask shape)
+      ((List.range (prod (extOf mask shape))).filter (isMissing view f)) nc).evs,
+      c.fn = f.name ∧ c.li < prod (extOf mask shape) ∧ isMissing view f c.li = true :=
+    fun c hc => ⟨(S2 c hc).1, (hmem _ (S2 c hc).2).1, (hmem _ (S2 c hc).2).2⟩
+  refine ⟨?_, ?_, ?_, ?_, ?_⟩
+  rotate_left 4
+  · simp only [stepMapped]; split
+    · exact S4
+    · split <;> exact S4
   · simp only [stepMapped]; split
     · exact S1
     · split <;> exact S1
@@ -244,25 +280,25 @@ theorem stepMapped_spec (W : Right) (names : List String) (fs0 : FS) (cfg : Cfg)
   · rcases S3 with S3 | ⟨hne, fn, S3⟩
     case inr => exact Or.inr ⟨hne, fn, by simp only [stepMapped, S3]⟩
     refine Or.inl ?_
-    have hload : ((List.range (prod (extOf mask shape))).filter fun li => !isMissing (fileView fs) f li).mapM
-        (fun li => (loadRow (fileView fs) f li).map fun r => (li, r)) =
-        .ok (((List.range (prod (extOf mask shape))).filter fun li => !isMissing (fileView fs) f li).map
+    have hload : ((List.range (prod (extOf mask shape))).filter fun li => !isMissing view f li).mapM
+        (fun li => (loadRow view f li).map fun r => (li, r)) =
+        .ok (((List.range (prod (extOf mask shape))).filter fun li => !isMissing view f li).map
           fun li => (li, f.outputs.map fun o => (o, outVal f (args li) o))) := by
       apply mapM_ok_of_forall
       intro li hli
-      have hli' : li < prod (extOf mask shape) ∧ isMissing (fileView fs) f li = false := by simpa using hli
-      have : loadRow (fileView fs) f li = .ok (f.outputs.map fun o => (o, outVal f (args li) o)) := by
+      have hli' : li < prod (extOf mask shape) ∧ isMissing view f li = false := by simpa using hli
+      have : loadRow view f li = .ok (f.outputs.map fun o => (o, outVal f (args li) o)) := by
         unfold loadRow
         apply mapM_ok_of_forall
         intro o ho
-        have hpres : ¬ fs.files (.cell o li) = none := by
+        have hpres : ¬ view o li = none := by
           have := hli'.2
-          simp only [isMissing, List.any_eq_false, fileView] at this
+          simp only [isMissing, List.any_eq_false] at this
           have := this o ho
           simpa using this
-        rcases hI.inv (.cell o li) rfl with hnone | ⟨v, hv, hw⟩
+        rcases hV o ho li with hnone | ⟨v, hv, hw⟩
         · exact absurd hnone hpres
-        · simp only [fileView, hv]
+        · simp only [hv]
           rw [hWr o ho li v hli'.1 hw]
       rw [this]; rfl
     simp only [stepMapped, S3, hload]
@@ -275,7 +311,7 @@ theorem stepMapped_spec (W : Right) (names : List String) (fs0 : FS) (cfg : Cfg)
       apply opArrayV_congr _ _ _ _ hlen
       intro li hli
       apply rowVal_partition f (fun li => outVal f (args li) o) o ho _ _ li _ (fun x o' => outVal f (args x) o') (fun _ => rfl)
-      by_cases hm : isMissing (fileView fs) f li = true
+      by_cases hm : isMissing view f li = true
       · exact Or.inl (by simp [hli, hm])
       · exact Or.inr (by simp [hli, hm])
     · rw [hslots]
@@ -288,7 +324,7 @@ theorem stepMapped_spec (W : Right) (names : List String) (fs0 : FS) (cfg : Cfg)
       have hli' : li < prod (extOf mask shape) := List.mem_range.mp hli
       congr 1
       apply rowVal_partition f (fun li => outVal f (args li) o) o ho _ _ li _ (fun x o' => outVal f (args x) o') (fun _ => rfl)
-      by_cases hm : isMissing (fileView fs) f li = true
+      by_cases hm : isMissing view f li = true
       · exact Or.inl (by simp [hli', hm])
       · exact Or.inr (by simp [hli', hm])
 
@@ -316,12 +352,13 @@ theorem stepSingle_spec (W : Right) (names : List String) (fs0 : FS) (cfg : Cfg)
     Safe (I W names fs0) (stepSingle cfg fsd env fs nc f).procEvs ∧
     (∀ c ∈ (stepSingle cfg fsd env fs nc f).calls, c.fn = f.name ∧ (f.outputs.all fun o => (fs.files (.single o)).isSome) = false) ∧
     ((∃ r', (stepSingle cfg fsd env fs nc f).res = .ok r' ∧ r'.outputs = r.outputs ∧ r'.slots = r.slots) ∨
-     (cfg.failAt ≠ none ∧ ∃ fn, (stepSingle cfg fsd env fs nc f).res = .error (.raised fn))) := by
+     (cfg.failAt ≠ none ∧ ∃ fn, (stepSingle cfg fsd env fs nc f).res = .error (.raised fn))) ∧
+    Bodies (I W names fs0) (stepSingle cfg fsd env fs nc f).subEvs := by
   obtain ⟨args, hargs, hout, hslots⟩ := runSingle_ok fsd env f r hpf
   have hW : ∀ o ∈ f.outputs, ∀ w, W (.single o) w ↔ w = outVal f args o := by
     intro o ho w
     have hm : (o, Slot.single (outVal f args o)) ∈ r.slots := by rw [hslots]; exact List.mem_map.mpr ⟨o, ho, rfl⟩
-    exact (hSR _ _ hm).2 w
+    exact (hSR _ _ hm).2.1 w
   by_cases hall : (f.outputs.all fun o => (fs.files (.single o)).isSome) = true
   · have hread : f.outputs.mapM (fun o => (readFile fs (.single o)).map fun v => (o, v)) = .ok (f.outputs.map fun o => (o, outVal f args o)) := by
       apply mapM_ok_of_forall
@@ -332,7 +369,7 @@ theorem stepSingle_spec (W : Right) (names : List String) (fs0 : FS) (cfg : Cfg)
       · simp only [readFile, hv]
         rw [(hW o ho v).mp hw]; rfl
     simp only [stepSingle, hall, ↓reduceIte, hread, hl, Bool.false_eq_true]
-    refine ⟨Safe.nil _, Safe.nil _, by simp, Or.inl ⟨_, rfl, hout.symm, ?_⟩⟩
+    refine ⟨Safe.nil _, Safe.nil _, by simp, Or.inl ⟨_, rfl, hout.symm, ?_⟩, Bodies.nil _⟩
     rw [hslots]; simp [List.map_map, Function.comp_def]
   · have hall' : (f.outputs.all fun o => (fs.files (.single o)).isSome) = false := by simpa using hall
     simp only [stepSingle, hall', Bool.false_eq_true, ↓reduceIte, hargs]
@@ -345,9 +382,9 @@ theorem stepSingle_spec (W : Right) (names : List String) (fs0 : FS) (cfg : Cfg)
       exact safe_write W names fs0 _ _ rfl ((hW o ho _).mpr rfl) (by intro e; cases e)
     by_cases hf : cfg.failAt = some nc
     · simp only [hf, ↓reduceIte]
-      exact ⟨safe_call _ _ _ _ _ _, Safe.nil _, by simp, Or.inr ⟨by simp, _, rfl⟩⟩
+      exact ⟨safe_call _ _ _ _ _ _, Safe.nil _, by simp, Or.inr ⟨by simp, _, rfl⟩, Bodies.one _ _ _ [] rfl (safe_call _ _ _ _ _ _)⟩
     · simp only [hf, ↓reduceIte]
-      refine ⟨safe_call _ _ _ _ _ _, hproc, by simp, Or.inl ⟨_, rfl, hout.symm, ?_⟩⟩
+      refine ⟨safe_call _ _ _ _ _ _, hproc, by simp, Or.inl ⟨_, rfl, hout.symm, ?_⟩, Bodies.one _ _ _ [] rfl (safe_call _ _ _ _ _ _)⟩
       rw [hslots]; simp [List.map_map, Function.comp_def]
 
 end PF.ResumeFS
